@@ -10,7 +10,7 @@ import ast
 from typing import Dict
 
 from ..cfg import CFG
-from ..model import AnalysisError, FuncInfo, Repo, dotted, unparse, walk_no_nested
+from ..model import AnalysisError, FuncInfo, Repo, attr_path, dotted, unparse, walk_no_nested
 from ..report import Check
 
 
@@ -37,12 +37,25 @@ def _returns_nothing(ann: ast.AST) -> bool:
 
 def check(chk: Check) -> None:
     from .sharing import extra
-    extra(chk)
+    try:
+        extra(chk)
+    except AnalysisError as e:
+        chk.cannot_decide("R00.0", "analysis:%s" % str(e)[:80], "", str(e))
     idx = _index(chk.repo)
     chk.rule("R00.1", "a function annotated to return a value returns one on every path (no silent "
                       "fall-through returning None)")
     chk.rule("R00.2", "no branch condition of an analysed function is a constant")
-    for q in sorted(chk.functions):
+    scope = set(chk.functions)
+    # an analysis that stopped at a construct it could not follow has not seen the functions it
+    # would have: the methods of the classes its message names are looked at all the same
+    import re as _re
+    for o in chk.obs:
+        if o.undecided and o.rule == "R00.0":
+            for w in set(_re.findall(r"[A-Za-z_][A-Za-z_0-9.]*", o.message)):
+                k = chk.repo.cls_opt(w.split(".")[-1]) if w[:1].isupper() or "." in w else None
+                if k is not None:
+                    scope |= {m.qualname for m in k.methods.values()}
+    for q in sorted(scope):
         f = idx.get(q)
         if f is None:
             continue
@@ -77,6 +90,57 @@ def check(chk: Check) -> None:
                    % (q, unparse(node.returns)[:40],
                       " -> ".join(cfg.describe_path(cfg.path_avoiding(cfg.entry, cfg.exit, set()) or [])[:0]) or
                       "callers receive None instead of the value"), 1)
+        # R00.7 a function object made in a loop that reads the loop variable and outlives the
+        # iteration (handed to a constructor, stored, queued) sees the variable's *last* value
+        for lp in [x for x in walk_no_nested(node) if isinstance(x, ast.For)]:
+            tnames = {n_.id for n_ in ast.walk(lp.target) if isinstance(n_, ast.Name)}
+            # names bound in the body belong to the iteration as well
+            tnames |= {n_.id for b_ in lp.body for n_ in ast.walk(b_)
+                       if isinstance(n_, ast.Name) and isinstance(n_.ctx, ast.Store)
+                       and not any(isinstance(z, (ast.Lambda, ast.FunctionDef)) and any(n_ is w for w in ast.walk(z))
+                                   for z in ast.walk(b_))}
+            for b_ in lp.body:
+                for fn_ in [z for z in ast.walk(b_) if isinstance(z, (ast.Lambda, ast.FunctionDef))]:
+                    own = {a_.arg for a_ in ast.walk(fn_.args) if isinstance(a_, ast.arg)}
+                    inner = fn_.body if isinstance(fn_.body, list) else [fn_.body]
+                    own |= {n_.id for s_ in inner for n_ in ast.walk(s_)
+                            if isinstance(n_, ast.Name) and isinstance(n_.ctx, ast.Store)}
+                    free = {n_.id for s_ in inner for n_ in ast.walk(s_)
+                            if isinstance(n_, ast.Name) and isinstance(n_.ctx, ast.Load)} - own
+                    late = sorted(free & tnames)
+                    if not late:
+                        continue
+                    # does it outlive the iteration?
+                    par = getattr(fn_, "_parent", None)
+                    escapes = None
+                    if isinstance(fn_, ast.Lambda):
+                        if isinstance(par, ast.Call) and any(fn_ is a_ for a_ in par.args) or \
+                                isinstance(par, ast.keyword):
+                            call = par if isinstance(par, ast.Call) else getattr(par, "_parent", None)
+                            fnm = (dotted(call.func) or attr_path(call.func) or ("",))[-1] if isinstance(call, ast.Call) else ""
+                            if fnm[:1].isupper() or fnm.lstrip("_")[:1].isupper() or fnm in ("append", "add", "partial", "setdefault"):
+                                escapes = "handed to %s(...)" % fnm
+                        elif isinstance(par, (ast.Assign, ast.AnnAssign)) and any(
+                                isinstance(t_, (ast.Attribute, ast.Subscript))
+                                for t_ in (par.targets if isinstance(par, ast.Assign) else [par.target])):
+                            escapes = "stored"
+                        elif isinstance(par, (ast.Yield, ast.Return, ast.Dict, ast.List, ast.Tuple)):
+                            escapes = "kept in a %s" % type(par).__name__.lower()
+                    else:
+                        uses = [n_ for s_ in lp.body for n_ in ast.walk(s_) if isinstance(n_, ast.Name) and n_.id == fn_.name
+                                and isinstance(n_.ctx, ast.Load)]
+                        for u_ in uses:
+                            pu = getattr(u_, "_parent", None)
+                            if isinstance(pu, ast.Call) and pu.func is u_:
+                                continue
+                            escapes = "passed on as a value"
+                    if escapes:
+                        chk.rule("R00.7", "a function object made inside a loop that outlives the iteration does not read "
+                                          "the loop's variables (it would see their last values)")
+                        chk.ob("R00.7", "%s:late-binding(%s)" % (q, ",".join(late)), False, f.loc(fn_),
+                               "%s makes a function object inside a loop that reads %s and is %s: when it is called "
+                               "later it sees the value of the last iteration, for every iteration"
+                               % (q, ", ".join(late), escapes), 2)
         for x in walk_no_nested(node):
             t = None
             if isinstance(x, (ast.If, ast.While, ast.IfExp)):
